@@ -74,9 +74,26 @@ func goSide(w *lib.Writer, env *envT) {
 			end
 			local m = require("m")
 			return m.answer(), tostring(rawget(fake, "__index") == nil), tostring(require("m") == m)`, wantValues("42", "true", "true")},
+		// hunt2 obs-2: the module's global is created by an ordinary assignment to the table of globals
+		// (luaL_findtable stores with lua_settable), so a __newindex on _G sees it
+		{"module() under a strict-globals guard on _G raises and creates nothing", `
+			setmetatable(_G, {__newindex = function(t, k, v) error("new global '" .. k .. "' forbidden", 2) end})
+			local ok, e = pcall(function() module("leak") end)
+			return tostring(ok), tostring(rawget(_G, "leak") == nil), tostring(tostring(e):find("forbidden", 1, true) ~= nil)`,
+			wantValues("false", "true", "true")},
+		{"L.RegisterModule under a proxy _G goes through __newindex; the module is reachable by its global name and by require", `
+			local SHADOW, log = {}, {}
+			setmetatable(_G, {__newindex = function(t, k, v) log[#log + 1] = k; SHADOW[k] = v end, __index = SHADOW})
+			local t = vh_register("hostmod")
+			return tostring(log[1]), tostring(SHADOW.hostmod == t), tostring(rawget(_G, "hostmod") == nil), tostring(require("hostmod") == t), tostring(hostmod == t)`,
+			wantValues("hostmod", "true", "true", "true", "true")},
 	}
 	for _, sc := range scs {
 		L := lua.NewState()
+		L.SetGlobal("vh_register", L.NewFunction(func(L *lua.LState) int {
+			L.Push(L.RegisterModule(L.CheckString(1), map[string]lua.LGFunction{"f": func(L *lua.LState) int { return 0 }}))
+			return 1
+		}))
 		L.SetField(L.GetGlobal("package"), "path", lua.LString(path))
 		var res []lua.LValue
 		var err error
